@@ -8,6 +8,8 @@ for f in sorted(glob.glob('/verif/seeded/*/meta.json')):
     status = 'missed at first, check strengthened, now detected' if res.startswith('MISSED') else 'detected'
     if m.get('status') == 'neutralised':
         status += '; NEUTRALISED since by fix 124d74c (its demonstration passes with the change applied to the repaired tree)'
+    if m.get('status') == 'out-of-scope':
+        status = 'NOT CLAIMED: outside what the property quantifies over (see detail)'
     if m.get('ported'):
         status += '; patch re-based by hand onto 124d74c'
     rows.append(f"| {m['id']} | {m['breaks_property']} | {m['needs_to_manifest'][:230]} | {status} | {res[:420]} |")
